@@ -256,6 +256,8 @@ struct Plan {
 }
 
 struct RunOut {
+    /// one line per executed call (for the evidence samples)
+    log: Vec<String>,
     /// per executed call: did it return an error / panic
     failed: Vec<bool>,
     n_spi: u32,
@@ -290,11 +292,6 @@ struct Driver<'a, RK: RadioKind, C: Probe> {
     failed_init: bool,
     baseline_failed: Vec<bool>,
     failed: Vec<bool>,
-}
-
-fn err_variant(e: &RadioError) -> String {
-    let s = format!("{:?}", e);
-    s.split('(').next().unwrap_or("").to_string()
 }
 
 impl<'a, RK: RadioKind, C: Probe> Driver<'a, RK, C> {
@@ -673,7 +670,7 @@ impl<'a> Visitor for RunPlan<'a> {
         let found = std::mem::take(&mut d.found);
         let out = {
             let sh = d.bus.borrow();
-            RunOut { failed: d.failed.clone(), n_spi: sh.n_spi, n_busy: sh.n_busy, n_irq: sh.n_irq, fault_call, fault_cmd: sh.last_cmd }
+            RunOut { log: d.log.clone(), failed: d.failed.clone(), n_spi: sh.n_spi, n_busy: sh.n_busy, n_irq: sh.n_irq, fault_call, fault_cmd: sh.last_cmd }
         };
         let col = d.col;
         for f in found {
@@ -709,6 +706,11 @@ fn run_plain(plan: &Plan, col: &mut Collector) -> Option<RunOut> {
         _ => "none".into(),
     };
     col.eval(&format!("{}|{}|{}|{}", plan.var.name(), seq_name(&plan.calls), plan.ovar, fc));
+    if col.want_sample() {
+        if let Some(o) = &out {
+            col.sample(json!({"chip": plan.var.name(), "calls": plan.calls.iter().map(|c| c.name()).collect::<Vec<_>>(), "outcome_rotation": plan.ovar, "fault": plan.fault.map(|f| format!("{:?}#{}", f.kind, f.at)), "calls_and_results_incl_probe_suffix": o.log, "bus_events": {"spi": o.n_spi, "busy_waits": o.n_busy, "irq_waits": o.n_irq}}));
+        }
+    }
     out
 }
 
@@ -1011,7 +1013,7 @@ impl<'a> Visitor for RunWan<'a> {
             }
         }
         let sh = bus.borrow();
-        Some(RunOut { failed: failed_steps, n_spi: sh.n_spi, n_busy: sh.n_busy, n_irq: sh.n_irq, fault_call, fault_cmd: sh.last_cmd })
+        Some(RunOut { log: log.clone(), failed: failed_steps, n_spi: sh.n_spi, n_busy: sh.n_busy, n_irq: sh.n_irq, fault_call, fault_cmd: sh.last_cmd })
     }
 }
 
@@ -1023,6 +1025,11 @@ fn run_wan(plan: &WanPlan, col: &mut Collector) -> Option<RunOut> {
     };
     let steps: Vec<String> = plan.steps.iter().map(|s| s.name()).collect();
     col.eval(&format!("wan|{}|{}|{}|{}", plan.var.name(), steps.join(","), plan.ovar, fc));
+    if col.want_sample() {
+        if let Some(o) = &out {
+            col.sample(json!({"chip": plan.var.name(), "outcome_rotation": plan.ovar, "fault": plan.fault.map(|f| format!("{:?}#{}", f.kind, f.at)), "adapter_steps_and_results": o.log, "bus_events": {"spi": o.n_spi, "busy_waits": o.n_busy, "irq_waits": o.n_irq}}));
+        }
+    }
     out
 }
 
